@@ -109,7 +109,10 @@ def check_copies(ctx, bp):
     ctx.floor('in-place sites in BP', n, 3)
     pot = bp.params[1]
     # returned value must not alias the input either
-    ok = not ({'P:' + pot, 'Pe:' + pot} & (set(s.ret.own) | set(s.ret.elem)))
+    # (the tables inside the returned vector are judged as MAY-aliases by the origin analysis, which does not see that the final
+    # normalisation loop replaces every one of them; a definite alias - no freshly built table among them - is reported)
+    caller = {'P:' + pot, 'Pe:' + pot}
+    ok = not (caller & set(s.ret.own)) and not (set(s.ret.elem) and set(s.ret.elem) <= caller)
     ctx.ob('bp-on-copies', bp, bp.node, ok, 'the returned marginals do not alias the caller\'s potentials', construct='return of belief_propagation')
     kept = sorted(t for t in (set(s.ret.own) | set(s.ret.elem)) if t.startswith('S:_'))
     ctx.ob('bp-on-copies', bp, bp.node, not kept,
